@@ -703,6 +703,27 @@ Proof.
   eapply dec_enc_gen; [|exact H]. exact W.
 Qed.
 
+(* announce.Send over the HTTP sender: every given address with the publisher ID *)
+Lemma known_all_known addrs : known (map (fun a => (a, AKnown)) addrs) = addrs.
+Proof. induction addrs as [|a l IH]; [reflexivity|]. unfold known in *. cbn. rewrite IH. reflexivity. Qed.
+
+Lemma no_invalid_all_known addrs : no_invalid (map (fun a => (a, AKnown)) addrs) = true.
+Proof. induction addrs as [|a l IH]; [reflexivity|]. unfold no_invalid in *. cbn. exact IH. Qed.
+
+Theorem announce_send_wire_lemma cfg c addrs :
+  announce_send cfg None addrs = None /\
+  (forall body, cid_wf c = true -> s_p2p cfg <> [] ->
+     announce_send cfg (Some c) addrs = Some (Ok body) ->
+     dec body = Ok (Msg (Some c) (mk_sl (map (fun a => Some (a ++ s_p2p cfg)) addrs))
+                        (norm_b (override_extra cfg None)) [], [])).
+Proof.
+  split; [reflexivity|]. intros body W Hp H. unfold announce_send in H. injection H as H.
+  apply sender_wire_lemma in H as [_ H]; [|exact W|exact Hp].
+  rewrite H. cbn [c_cid c_addrs c_extra c_orig]. f_equal. f_equal. f_equal. f_equal.
+  unfold expected_addrs. rewrite known_all_known.
+  destruct addrs as [|a l]; [reflexivity|]. cbn [map]. rewrite map_map. reflexivity.
+Qed.
+
 (* ------------------------------------------------------------------ *)
 (* 10. the hypotheses are met by ordinary messages                      *)
 
